@@ -13,9 +13,11 @@ QUICK_TYPES0 = [(0, 0), (1, 1), (4, 4), (5, 5), (0, 1), (1, 0), (4, 5), (3, 3)]
 def closure_partitions(tier):
     parts = []
     if tier == 'quick':
-        for (a, b) in [(0, 0), (1, 1), (4, 4), (0, 1)]:
+        for (a, b) in [(0, 0), (1, 1), (4, 4)]:
             for m in (3, 5, 24, 18):
                 parts.append([0, a, b, m])
+        for m in (5, 24):       # type change: max_length stays out (field construction with a symbolic max_length is too slow for the quick tier)
+            parts.append([0, 0, 1, m])
         for t in (0, 1, 4, 5):
             for m in (3, 24):
                 parts.append([1, t, t, m])
